@@ -52,6 +52,23 @@ CLAIMED["C05"] = dict(
     technique="constant-table analysis: scheme tables extracted by AST evaluation, exact rational / interval comparison with closed-form monomial integrals",
 )
 
+CLAIMED["C03"] = dict(
+    category="proof",
+    text="For every hand-coded constitutive class (discovered by AST: 18 classes with gradient and hessian) and every parameter "
+    "configuration that changes control flow, the methods are evaluated from the AST on a symbolic deformation gradient, symbolic "
+    "parameters, p, J and state; each tensor entry is one obligation: stress == d energy/dF, elasticity == d stress/dF, all six "
+    "blocks of the mixed u/p/J forms == the mixed second derivatives (inner material an opaque hyperelastic W(F) with derivative "
+    "atoms), pseudo-elastic softening in both generic cases of the max-history switch, small-strain framework and the radial-return "
+    "plasticity tangent on both sides of the yield surface (consistent tangent as total derivative through eps = sym(F-1)), composite, "
+    "kinematic quantities, and the push-forward algebra of the tensortrax/jax wrappers with the AD libraries as opaque derivative "
+    "operators. Inputs unchanged; out= dirty buffers give the same values. Identities of rational functions modulo det(F)^(p/q), Log, Erf, sqrt relations.",
+    design_ref="DESIGN.md section 3, C03",
+    note="Trusted: numpy object-array semantics; tensortrax/jax differentiate the function they are handed (pure-AD models - "
+    "viscoelastic, MORPH - have no hand-derived tangent and are covered only through that trust); generic point (det F != 0, "
+    "moduli != 0); behaviour at the non-smooth points is excluded as in the property.",
+    technique="algebraic value numbering over an exact ring with function atoms; formal total derivative; entry-wise identity test",
+)
+
 NOT_APPLICABLE = {}
 
 TODO_REASON = "check not built yet in this session (static rule designed in DESIGN.md; will be claimed once its checker is committed)"
